@@ -15,6 +15,11 @@ BAD_SHAPES = [
     "$[]", "$[,]", "$[1,]", "$['a',]", "$[1,,2]", "$[01]", "$[00]", "$[-01]", "$[-0]", "$[007]", "$.a[-010].b", "$[0, -01]", "$[?@[-01] == 1]", "$[?@[01] == 1]",
     f"$[{MAXI + 1}]", f"$[-{MAXI + 1}]", f"$[{MAXI + 1}:]", f"$[:{MAXI + 1}]", f"$[::{MAXI + 1}]", f"$[:-{MAXI + 1}]", f"$[1::-{MAXI + 1}]", f"$[:5:{MAXI + 1}]",
     f"$[0:1:{MAXI + 1}]", f"$[?@[{MAXI + 1}] == 1]", f"$..[{MAXI + 1}]", f"$[0, {MAXI + 1}]",
+    # a logical expression (parenthesised, negated, comparison, && / ||) where a function wants a value or nodes:
+    # none of the five standard functions has a logical-typed parameter
+    "$[?count((@.*)) == 2]", "$[?value((@.a)) == 'b']", "$[?length((@.a)) == 2]", "$[?length((1)) == 1]", "$[?length((length(@.a))) == 1]", "$[?match((@.a), 'a')]",
+    "$[?search(@.a, (@.b))]", "$[?length(!@.a) == 1]", "$[?count(!@.*) == 1]", "$[?length(@.a == 1) == 1]", "$[?length(@.a && @.b) == 1]", "$[?count(@.a || @.b) == 1]",
+    "$[?length((@.a == 1)) == 1]", "$[?value(!(@.a)) == 1]", "$[?match(@.a, !@.b)]", "$[?length(((@.a))) == 1]",
     "$[?1]", "$[?'a']", "$[?true]", "$[?null]", "$[?1.5]", "$[?@.a && 1]", "$[?1 || @.a]", "$[?!true]", "$[?(1)]", "$[?@.a == 1 && 'x']",
 ]
 GOOD_SHAPES = ["$[?@[-1] == 3]", "$[?length(@[-1]) == 1]", "$[?@.a[-2].b == $[-1]]", "$[\"a\x7fb\"]", "$[?@['k\x7f'] == 1]", "$['\\\\\"']", "$[:]", "$[::]", "$[::1]",
